@@ -53,6 +53,12 @@ def merge(dumps):
 
 
 def main():
+    # details quote inputs verbatim, lone surrogates included: never let printing them fail a run
+    for st in (sys.stdout, sys.stderr):
+        try:
+            st.reconfigure(errors="backslashreplace")
+        except Exception:
+            pass
     ap = argparse.ArgumentParser()
     ap.add_argument("prop")
     ap.add_argument("--tier", default=os.environ.get("VERIF_TIER", "quick"), choices=["quick", "thorough"])
